@@ -27,6 +27,10 @@ CHECKS = [
   "Coq theorems (Properties/C05.v, 7, axiom-free): HTTP status and WebSocket close-code lookups are total over all uint32 codes and equal the reference table (finite sweep lifted + range lemma); grpc-message percent-encoding decodes back exactly with grpc-go's decoder for every byte string and is printable ASCII; gRPC-web frames parse back to exactly the written frames; base64 (4 variants) decodes to exactly the encoded bytes; close reason is a prefix within 123 bytes. Tie: ~1.7k scripted-status calls on 8 protocol/codec combinations through the real Mux; the client-side view is judged with the extracted decoders and tables, and the grpc-message header is compared exactly with the model.",
   COMMON_NOTE + "Reference status table = code.go at the pinned commit; header OWS trimming; trailers-only gRPC-web responses accepted; protojson/proto/gobwas as independent decoders.",
   "Coq proofs of codec laws (percent-encoding, base64, frames, total table lookups) + extracted decoders applied to the real responses"),
+ chk("C14",
+  "Coq theorems (Properties/C14.v, 7, axiom-free) on a model of newIncomingContext / setOutgoingHeader / decodeBinHeader: the handler's metadata is exactly the non-reserved request headers (lower-cased, all values in order), -bin values decode to the client's bytes in the padded and the unpadded spelling, -bin response values are byte-exact, no handler metadata can change a reserved or net/http-framing response key (for every metadata and every base header map), every other key arrives with all values, trailers under TrailerPrefix are delivered unannounced. Tie: ~1.5k header/metadata cases on gRPC, gRPC-web and HTTP transcoding through the real Mux; incoming metadata compared exactly with the model, outgoing judged by the spec and a baseline call.",
+  COMMON_NOTE + "net/http's trailer delivery rule and header canonicalisation are modelled library facts; ResponseRecorder stands for the client.",
+  "Coq proof over association-list header maps (no-forgery, completeness, base64 both spellings) + differential run through ServeHTTP"),
 ]
 
 def main():
